@@ -115,6 +115,16 @@ func c12RandomTemplate(r *rand.Rand, d, maxD int) *canon.Node {
 			elts = append(elts, c12RandomTemplate(r, d+1, maxD))
 		}
 	}
+	if len(elts) >= 1 && r.Intn(8) == 0 {
+		// the bare symbols unquote / splice-unquote as data at a non-head position (also second to last, where the
+		// tail "unquote x" looks like an unquote form to a translation that recurses on the rest of the list):
+		// everything that is not an unquote form is returned literally (seeded C12-m16)
+		pos := 1 + r.Intn(len(elts))
+		if len(elts) >= 2 && r.Intn(2) == 0 {
+			pos = len(elts) - 1
+		}
+		elts = append(elts[:pos:pos], append([]*canon.Node{s(gen.Pick(r, []string{"unquote", "unquote", "splice-unquote"}))}, elts[pos:]...)...)
+	}
 	switch r.Intn(6) {
 	case 0, 1:
 		return canon.Ve(elts...)
@@ -397,7 +407,7 @@ func init() {
 		ID:         "C12",
 		Run:        runC12,
 		NonTrivial: "template_shapes",
-		Rule:       "(a) every quasiquote template with <= N nodes (N=5 quick, 6 thorough) over atoms {1 \"s\" :k x lst nil () []}, lists, vectors, one-key maps and ~e / ~@e with e in {x lst vc em (trace! lst)}; (b) seeded deep templates (splices first/middle/last/adjacent/only, in lists and vectors, literal 'unquote' inside vectors, maps holding unquote forms); results compared with the harness's template substitution; (c) seeded programs defining macros from templates (fixed and & parameters, recursive, expanding to library macros, free symbols resolved at the caller, same definition as def) compared with the reference interpreter, and for every macro call form: EVAL(call) vs EVAL(EVAL('(macroexpand call))) in identically prepared scopes (value modulo gensym names, ordered trace, head of expansion not a macro); (d) library macros cond/and/or/->/->> on effectful operands vs their documented meaning; distinct = distinct template skeletons; templates contain nested lists headed by the symbols quasiquote/quote/quasiquoteexpand and vectors headed by unquote/splice-unquote as data; macros: call sites evaluated repeatedly, stateful expanders, varying head macro, try bodies ending in a macro call, macroexpand as data",
+		Rule:       "(a) every quasiquote template with <= N nodes (N=5 quick, 6 thorough) over atoms {1 \"s\" :k x lst nil () []}, lists, vectors, one-key maps and ~e / ~@e with e in {x lst vc em (trace! lst)}; (b) seeded deep templates (splices first/middle/last/adjacent/only, in lists and vectors, literal 'unquote' inside vectors, the bare symbols unquote / splice-unquote at non-head positions of lists and vectors, maps holding unquote forms); results compared with the harness's template substitution; (c) seeded programs defining macros from templates (fixed and & parameters, recursive, expanding to library macros, free symbols resolved at the caller, same definition as def) compared with the reference interpreter, and for every macro call form: EVAL(call) vs EVAL(EVAL('(macroexpand call))) in identically prepared scopes (value modulo gensym names, ordered trace, head of expansion not a macro); (d) library macros cond/and/or/->/->> on effectful operands vs their documented meaning; distinct = distinct template skeletons; templates contain nested lists headed by the symbols quasiquote/quote/quasiquoteexpand and vectors headed by unquote/splice-unquote as data; macros: call sites evaluated repeatedly, stateful expanders, varying head macro, try bodies ending in a macro call, macroexpand as data",
 		Assume:     []string{"nested quasiquote levels and hygiene are outside the statement", "gensym-generated symbol names are compared modulo numbering"},
 		Finish: func(m *fw.Merged) {
 			m.Floor("templates", 10000)
